@@ -109,11 +109,28 @@ def judge(ctx, binary, cases):
     return verdicts
 
 
+def pre_rank(c):
+    """exact rank of the model's matrix for the eigensolver"""
+    if c["inp"] == "pts":
+        return sp.centred_points_rank(c["rows"])
+    if c["inp"] == "dist":
+        return sp.centred_matrix_rank([[v * v for v in r] for r in c["rows"]])
+    return sp.centred_matrix_rank(c["rows"])
+
+
+def in_quantifier(c):
+    """the randomized solver is claimed only on inputs of rank <= target_dimension"""
+    return c["solver"] != "rand" or pre_rank(c) <= c["d"]
+
+
 def shrink(ctx, binary, c, sig, budget=40):
     def failing(keep):
         if len(keep) < (4 if c["method"] == "isomap" else 2):
             return False
-        v = judge(ctx, binary, [subcase(c, keep)])[0]
+        sub = subcase(c, keep)
+        if not in_quantifier(sub):
+            return False
+        v = judge(ctx, binary, [sub])[0]
         return v["sig"] == sig
     keep = vlib.ddmin(list(range(c["N"])), failing, max_tests=budget)
     s = subcase(c, keep)
@@ -121,7 +138,7 @@ def shrink(ctx, binary, c, sig, budget=40):
     for d in range(1, s["d"]):
         t = dict(s)
         t["d"] = d
-        if judge(ctx, binary, [t])[0]["sig"] == sig:
+        if in_quantifier(t) and judge(ctx, binary, [t])[0]["sig"] == sig:
             return t
     return s
 
@@ -217,7 +234,7 @@ def gen_cases(ctx, quick):
     r = ctx.rng
     pow2 = [2, 4, 8, 16, 32] if quick else [2, 4, 8, 16, 32, 64]
     nmax = 32 if quick else 64
-    rounds = 7 if quick else 60
+    rounds = 7 if quick else 36
     cases = []
 
     def add(label, method, solver, inp, rows, N, D, d, exact, rank):
@@ -304,6 +321,10 @@ def build(ctx):
 
 def run_all(ctx, binary, cases, do_shrink=True):
     ctx._c05_seen = getattr(ctx, "_c05_seen", {})
+    kept = [c for c in cases if in_quantifier(c)]
+    if len(kept) != len(cases):
+        ctx.stat("skipped:randomized-solver-on-rank>d(outside the property)", len(cases) - len(kept))
+    cases = kept
     for i in range(0, len(cases), 40):
         chunk = cases[i:i + 40]
         vs = judge(ctx, binary, chunk)
